@@ -29,7 +29,7 @@ var c16subs = []c16sub{
 	// what the comment says does not matter: a digit, a quote, the other comment opener or characters outside ASCII
 	// (the replacement character included) directly after the opener or further in
 	{" --1st\n", "line-comment"}, {" --2024-05-01 x\n", "line-comment"}, {" -- \ufffd tail\n", "line-comment"}, {" --é👍\n", "line-comment"}, {" --'\"/*\n", "line-comment"},
-	{" /*1*/ ", "block-comment"}, {" /* \ufffd tail */ ", "block-comment"}, {" /*é👍*/ ", "block-comment"}, {" /*'\"--*/ ", "block-comment"}, {" /*\xff*/ ", "block-comment"},
+	{" /*1*/ ", "block-comment"}, {" /*" + strings.Repeat("x", 4200) + "*/ ", "block-comment"}, {" /*" + strings.Repeat("* ", 35000) + "*/ ", "block-comment"}, {" --" + strings.Repeat("y", 70000) + "\n", "line-comment"}, {" /* \ufffd tail */ ", "block-comment"}, {" /*é👍*/ ", "block-comment"}, {" /*'\"--*/ ", "block-comment"}, {" /*\xff*/ ", "block-comment"},
 }
 
 func tokClass(t gram.Tok) string {
